@@ -132,6 +132,10 @@ pub struct Sim {
     pub probes: BTreeMap<&'static str, u64>,
     pub faults: BTreeMap<&'static str, u64>,
     pub violations: Vec<Violation>,
+    /// oracle-level violations of properties other than the one under check (do not abort)
+    pub others: Vec<Violation>,
+    /// the property the current batch decides ("" = every violation aborts)
+    pub check_property: &'static str,
     /// chosen task per scheduling decision, and the (role, site) it was about to execute
     pub trace: Vec<u32>,
     pub trace_sites: Vec<(Role, Site)>,
@@ -162,6 +166,8 @@ impl Default for Sim {
             probes: BTreeMap::new(),
             faults: BTreeMap::new(),
             violations: vec![],
+            others: vec![],
+            check_property: "",
             trace: vec![],
             trace_sites: vec![],
             trace_hash: 0xcbf29ce484222325,
@@ -306,6 +312,34 @@ fn set_site(site: Site) {
             s.sites.resize(t + 1, Site::None);
         }
         s.sites[t] = site;
+    });
+}
+
+/// does a violation tagged `tag` ("C06", "C06+C12", "*") count for property `p`?
+pub fn counts_for(tag: &str, p: &str) -> bool {
+    p.is_empty() || tag == "*" || tag.split('+').any(|t| t == p)
+}
+/// Oracle-level violation (the execution can meaningfully continue): aborts only if it counts for
+/// the property under check; otherwise it is noted and the run goes on, so that a defect in one
+/// property does not mask the oracle of another.
+pub fn soft_violation(property: &str, class: &str, message: String) {
+    let check = with(|s| s.check_property);
+    if counts_for(property, check) {
+        violation(property, class, message)
+    }
+    let task = if active() { me() } else { usize::MAX };
+    with(|s| {
+        if s.others.len() < 8 {
+            let v = Violation {
+                property: property.to_string(),
+                class: class.to_string(),
+                message,
+                at_decision: s.stats.decisions,
+                at_seq: s.seq,
+                task,
+            };
+            s.others.push(v);
+        }
     });
 }
 
